@@ -173,12 +173,13 @@ def parseLossCase (j : Json) : Except String LossCase := do
     | .ok v => (v.getNat?.toOption).getD 0
     | _ => 0
   let inside ← getRatMat j "inside"
+  let dNat := d
   let sliceSol ← parseSlice (optField j "slice_solution")
   let dyn ← (match optField j "dyn" with
     | none => pure none
     | some d => do
       let tab ← getTab d "tab"
-      requireKeys "dyn" tab inside
+      requireKeys "dyn" tab (if spinn then gridPts (if kind == "nonstatio" then dNat + 1 else dNat) inside else inside)
       pure (some (← parseWeight (← d.getObjVal? "w"), tab)))
   let mut icOde := none
   let mut icPde := none
@@ -262,7 +263,8 @@ def LossCase.run (c : LossCase) : Except String (Bool × Rat × List (String × 
   if c.spinn then
     match c.kind with
     | "statio" =>
-      let (tot, t) := lossStatioSpinn c.d (c.norm.map fun (w, L, samples, tab) => (w, L, tabFn tab, samples)) bval
+      let (tot, t) := lossStatioSpinnDyn c.d (c.dyn.map fun (w, tab) => (w, tabFn tab))
+        (c.norm.map fun (w, L, samples, tab) => (w, L, tabFn tab, samples)) bval c.inside
       return (false, tot, pdeTermsJ t)
     | "nonstatio" =>
       match c.norm with
@@ -270,7 +272,7 @@ def LossCase.run (c : LossCase) : Except String (Bool × Rat × List (String × 
         if normSpinnRejected c.inside.length samples.length then return (true, 0, [])
       | none => pure ()
       let rows : List (Rat × List Rat) := c.inside.map fun r => (r.headD 0, r.drop 1)
-      let (tot, t) := lossNonStatioSpinn c.d
+      let (tot, t) := lossNonStatioSpinnDyn c.d (c.dyn.map fun (w, tab) => (w, tabFn tab))
         (c.norm.map fun (w, L, samples, tab) =>
           (w, L, (fun (t : Rat) (s : List Rat) => tabFn tab (t :: s)), samples))
         bval (c.icPde.map fun (w, u0, uAt0) => (w, tabFn u0, tabFn uAt0)) rows
